@@ -75,7 +75,6 @@ def canon_dump(text):
     return "".join(out), best
 
 
-K_VARORDER = "dump-variables-section-ordered-by-address"
 VARBLOCK_RE = re.compile(r"(  <variables>\n)(.*?)(  </variables>\n)", re.S)
 
 
@@ -305,8 +304,8 @@ def one_input(ctx, res, drv, inp, k, no_aslr_ok, stats):
                         fd = first_diff(c1, c2)
                         unlisted = re.search(r'([\w-]+)="[0-9a-f]{9,16}"', fd["a"]) and re.search(r'([\w-]+)="[0-9a-f]{9,16}"', fd["b"])
                         kind = "idattr" if unlisted else "output"
-                        if canon_modulo_var_order(ref["dumps"][name]) == canon_modulo_var_order(text):
-                            kind = "varorder"
+                        if kind == "output" and canon_modulo_var_order(ref["dumps"][name]) == canon_modulo_var_order(text):
+                            fd["note"] = "only the order of the <var> elements inside <variables> differs (F29a, repaired by e03b361, is back)"
                         problems.append((kind,
                                          dict(input=inp["name"], command="dump", layout=lay["name"], dump=name, diff=fd,
                                               files=inp["files"] if len(json.dumps(inp["files"])) < 20000 else None, args=inp["args"], options=inp["options"])))
@@ -444,10 +443,6 @@ def run(ctx, res):
     res.oblig("machinery:dump-id-attributes", not idbad, "machinery",
               "" if not idbad else "dumps of two runs differ in an address-valued attribute the canonicaliser does not list: %s" % json.dumps(idbad[0][1]["diff"])[:600])
     for kind, p in problems:
-        if kind == "varorder":
-            res.violation("the order of the <var> elements in the <variables> section of the dump differs between two runs of the same "
-                          "command (%s, layout %s, %s line %s)" % (p.get("input"), p.get("layout"), p.get("dump"), p.get("diff", {}).get("line")),
-                          p, concrete=True, key=K_VARORDER)
         if kind == "output":
             res.violation("the same command gives different output in a differently laid-out run (%s, %s, layout %s): line %s: %r vs %r" %
                           (p.get("input"), p.get("command"), p.get("layout"), p.get("diff", {}).get("line"), p.get("diff", {}).get("a"), p.get("diff", {}).get("b")),
